@@ -299,6 +299,15 @@ func c05Compare(c *vlib.Ctx, first gopacket.LayerType, b []byte, set *c05Set, ki
 	// the converse only when the parser ran every decoder the packet ran: an error layer may come from a decoder outside the
 	// set, whose SetTruncated the parser never sees
 	covers := n == len(L)
+	if !covers && n == len(L)-1 && isErrLayer(L[n]) && perr != nil {
+		// the packet ends in the failure of the very decoder that also failed in the parser (an error other than "no decoder
+		// in the set"): both ran the same decoders on the same bytes, so a truncation the failing decoder reports to the
+		// packet must reach the parser's flag too
+		if _, unsupported := perr.(gopacket.UnsupportedLayerType); !unsupported && !strings.HasPrefix(perr.Error(), "panic:") {
+			covers = true
+			c.Count("failing_decoder_truncation_compared", 1)
+		}
+	}
 	if pt && !ps.Truncated && covers {
 		c.Violation("packet-truncated-but-parser-not", "packet decoding marks the packet truncated, the parser (which decoded every layer) does not", det())
 		return n, false
@@ -394,6 +403,84 @@ func c05Parser(c *vlib.Ctx) {
 		}
 		c.End()
 	}
+	// every other layer type that offers in-place decoding, one decoder at a time: a parser holding only that layer against
+	// packet decoding from that layer type. Judged where both ran exactly the same decoder: the
+	// truncation flag (a decoder that reports a short input to the packet must report it to the parser's flag as well).
+	base := (n + chunk - 1) / chunk
+	var dts []gopacket.LayerType
+	for _, t := range cp.Types {
+		if _, ok := dlTypes[t]; ok {
+			dts = append(dts, t)
+		}
+	}
+	for ti, t := range dts {
+		if !c.Begin(base + 1 + ti) {
+			continue
+		}
+		r := c.Rand(uint64(t), 555)
+		var ins [][]byte
+		for i := 0; i < c.Pick(150, 1500); i++ {
+			b, _ := cp.Input(r, t)
+			ins = append(ins, b)
+		}
+		for si, seed := range cp.Seeds[t] {
+			if si >= 3 {
+				break
+			}
+			for k := 0; k <= len(seed) && k <= c.Pick(96, 400); k++ {
+				ins = append(ins, seed[:k])
+			}
+		}
+		for _, b := range ins {
+			if len(b) > 8192 {
+				b = b[:8192]
+			}
+			dl := newDecodingLayer(t)
+			if dl == nil {
+				break
+			}
+			ps := gopacket.NewDecodingLayerParser(t, dl)
+			ps.IgnoreUnsupported = true
+			dec := []gopacket.LayerType{gopacket.LayerTypePayload}
+			var perr error
+			if pi := vlib.Guard(func() { perr = ps.DecodeLayers(b, &dec) }); pi != nil {
+				continue
+			}
+			var pkt gopacket.Packet
+			if pi := vlib.Guard(func() {
+				pkt = gopacket.NewPacket(b, t, gopacket.DecodeOptions{NoCopy: true, DecodeStreamsAsDatagrams: true})
+				pkt.Layers()
+			}); pi != nil {
+				continue
+			}
+			L := pkt.Layers()
+			c.Evals(1)
+			if len(L) == 0 || (perr != nil && strings.HasPrefix(perr.Error(), "panic:")) {
+				continue
+			}
+			det := map[string]any{"first_layer": t.String(), "input_hex": hx(b), "parser_error": fmt.Sprint(perr), "packet_layers": fmt.Sprint(layerTypes(L))}
+			pktFailedFirst := isErrLayer(L[0])
+			// "the same decoder ran": either the packet holds just this layer, of the very struct type the parser used (and
+			// undecoded payload), or both failed at once with the same error text (decode functions that dispatch to another
+			// struct by version or length - IGMP, OSPF, AGUE - fail with their own messages and are not compared)
+			same := false
+			if pktFailedFirst && perr != nil {
+				if e, ok := L[0].(gopacket.ErrorLayer); ok && e.Error() != nil && e.Error().Error() == perr.Error() {
+					same = true
+				}
+			}
+			if !pktFailedFirst && perr == nil && reflect.TypeOf(L[0]) == reflect.TypeOf(dl) && (len(L) == 1 || (len(L) == 2 && L[1].LayerType() == gopacket.LayerTypePayload)) {
+				same = true
+			}
+			if same && len(b) > 0 {
+				c.Count("single_decoder_truncation_flags_compared", 1)
+				if pt := pkt.Metadata().Truncated; pt != ps.Truncated {
+					c.Violation("single-decoder:truncation-flag-differs:"+typeKey(t), fmt.Sprintf("the %s decoder alone: parser Truncated=%v, packet Truncated=%v", t, ps.Truncated, pt), det)
+				}
+			}
+		}
+		c.End()
+	}
 	// negative layer types (only reachable with custom layer types) must not crash the lookup containers
 	if c.Batch == 0 && c.Begin(1<<29) {
 		for kind := 0; kind < 4; kind++ {
@@ -485,4 +572,11 @@ func c05Stale(c *vlib.Ctx) {
 		}
 		c.End()
 	}
+}
+
+func layerTypes(L []gopacket.Layer) (out []gopacket.LayerType) {
+	for _, l := range L {
+		out = append(out, l.LayerType())
+	}
+	return
 }
